@@ -16,6 +16,7 @@ type EngineGenOpts struct {
 	FixedIO  int  // -1: draw, else force this FileIOType
 	HostileCaller bool
 	MergeHeavy    bool // several merges per scenario, each followed by restarts (adoption, second restart), small files
+	RacingMerge   bool // with MergeHeavy: some merges run with Put / Delete calls of another client between the scan steps
 	BackupCycle   bool // some scenarios refresh one backup directory around an adopted merge of uniform-size records
 }
 
@@ -159,7 +160,36 @@ func GenEngineScript(r *Rng, o EngineGenOpts, hist map[string]int) []string {
 		if o.MergeHeavy && r.Chance(1, 8) {
 			// merge, perhaps more writes, then the adopting restart and a second restart
 			hist["op_merge_cycle"]++
-			add("merge")
+			if o.RacingMerge && r.Chance(2, 3) {
+				// another client writes while the merge scans
+				racing := func(n int) string {
+					if n == 0 {
+						return "-"
+					}
+					var xs []string
+					for j := 0; j < n; j++ {
+						k := engKeys[r.Intn(len(engKeys))]
+						if r.Chance(1, 3) {
+							xs = append(xs, "d,"+k)
+						} else {
+							v := genEngVal(r, o, c, hist)
+							if v == "-" {
+								v = "00"
+							}
+							xs = append(xs, "p,"+k+","+v)
+						}
+					}
+					return strings.Join(xs, ";")
+				}
+				spec := racing(r.Pick(0, 0, 1, 2, 4))
+				for j := r.Intn(8); j > 0; j-- {
+					spec += "|" + racing(r.Pick(0, 0, 1, 1, 2))
+				}
+				add("mergei %s", spec)
+				hist["op_merge_racing"]++
+			} else {
+				add("merge")
+			}
 			add("hintcheck")
 			add("dump")
 			add("files")
@@ -528,6 +558,8 @@ func init() {
 				o.Backups = true
 			case "bigvals":
 				o.BigVals = true
+			case "racingmerge":
+				o.RacingMerge = true
 			case "backupcycle":
 				o.BackupCycle = true
 			case "hostile":
